@@ -327,7 +327,8 @@ def trim(x, n=4000):
 
 # --------------------------------------------------------------------------- trace validation (code -> model)
 
-def validate_traces(wd, module, consts, traces, invariants=(), timeout=600, max_rounds=4, extra_cfg=None, dfs=False):
+def validate_traces(wd, module, consts, traces, invariants=(), timeout=600, max_rounds=4, extra_cfg=None, dfs=False,
+                    headers=None):
     """traces: list of lists of event dicts (without the reset markers).
     Returns (accepted, rejections, tlc_stats) where rejections = [(trace_index, event_index_in_trace)]."""
     alive = list(range(len(traces)))
@@ -341,7 +342,7 @@ def validate_traces(wd, module, consts, traces, invariants=(), timeout=600, max_
         index = []  # line number (1-based) -> (trace idx, event idx)
         with open(path, "w") as f:
             for ti in alive:
-                f.write(json.dumps({"ev": "reset"}) + "\n")
+                f.write(json.dumps(headers[ti] if headers else {"ev": "reset"}) + "\n")
                 index.append((ti, -1))
                 for ei, ev in enumerate(traces[ti]):
                     f.write(json.dumps(ev) + "\n")
